@@ -44,7 +44,7 @@ theorem lookup_of_mem_nodup {β : Type} (m : List (Nat × β)) (hn : (keys m).No
   | cons x t ih =>
     simp only [keys, List.map_cons, List.nodup_cons] at hn
     rcases List.mem_cons.mp he with rfl | h
-    · simp [lookup, List.find?_cons]
+    · simp [lookup]
     · have hne : x.1 ≠ e.1 := by
         intro heq
         exact hn.1 (List.mem_map.mpr ⟨e, h, heq.symm⟩)
@@ -55,7 +55,7 @@ theorem lookup_of_mem_nodup {β : Type} (m : List (Nat × β)) (hn : (keys m).No
       exact this
 
 theorem lookup_put_self {β : Type} (m : List (Nat × β)) (k : Nat) (v : β) : lookup (put m k v) k = some v := by
-  simp [lookup, put, List.find?_cons]
+  simp [lookup, put]
 
 theorem lookup_erase_ne {β : Type} (m : List (Nat × β)) (k k' : Nat) (h : k' ≠ k) :
     lookup (erase m k) k' = lookup m k' := by
@@ -80,7 +80,7 @@ theorem lookup_put_ne {β : Type} (m : List (Nat × β)) (k k' : Nat) (v : β) (
     lookup (put m k v) k' = lookup m k' := by
   have hb : (k == k') = false := by simpa using (Ne.symm h)
   rw [← lookup_erase_ne m k k' h]
-  simp [lookup, put, List.find?_cons, hb]
+  simp [lookup, put, hb]
 
 theorem lookup_erase_self {β : Type} (m : List (Nat × β)) (k : Nat) : lookup (erase m k) k = none := by
   rw [lookup_eq_none, mem_keys_erase]; simp
